@@ -115,6 +115,9 @@ def check(ctx, res) -> None:
 
     column_to_offset_anchor(ctx, res, "R01.13")
     byte_column_rule(ctx, res, "R01.13", ("rope.refactor.occurrences",))
+    from .common import identifier_char_rule
+
+    identifier_char_rule(ctx, res, "R01.14", ("rope.refactor.occurrences", "rope.refactor.rename", "rope.base.worder"), occurrences=True)
 
 
 def call_keyword_rule(ctx, res, rule: str) -> None:
